@@ -89,9 +89,45 @@ def _roots(expr):
     return expr.id if isinstance(expr, ast.Name) else None
 
 
+_DUNDER = {ast.Add: "__add__", ast.Sub: "__sub__", ast.Mult: "__mul__", ast.USub: "__neg__"}
+
+
+def _op_dunder(e):
+    """the operator method an expression over linear combinations calls (on its left / only operand), or None"""
+    if isinstance(e, ast.BinOp) and type(e.op) in _DUNDER:
+        return _DUNDER[type(e.op)]
+    if isinstance(e, ast.UnaryOp) and type(e.op) in _DUNDER:
+        return _DUNDER[type(e.op)]
+    if isinstance(e, ast.Call) and isinstance(e.func, ast.Attribute) and e.func.attr in _DUNDER.values():
+        return e.func.attr
+    return None
+
+
+def _may_return_operand(ci):
+    """operators of the class that can hand back one of their operands (the very object): `return self`, or the result of
+    another such operator applied to an operand"""
+    may = set()
+    changed = True
+    while changed:
+        changed = False
+        for mn, fi in ci.methods.items():
+            if mn in may or mn not in _DUNDER.values() and not (mn.startswith("__r") and mn[3:] in [d[2:] for d in _DUNDER.values()]):
+                continue
+            for r in ast.walk(fi.node):
+                if isinstance(r, ast.Return) and r.value is not None:
+                    v = r.value
+                    if (isinstance(v, ast.Name) and v.id in fi.params) or (_op_dunder(v) in may and any(
+                            isinstance(x, ast.Name) and x.id in fi.params for x in ast.walk(v))):
+                        may.add(mn)
+                        changed = True
+                        break
+    return may
+
+
 def immutability(repo, rule):
     for mod, cn, fld, _shape in LC_CLASSES:
         ci = repo.cls(mod, cn)
+        may_alias = _may_return_operand(ci)
         for mn, fi in sorted(ci.methods.items()):
             if not (mn.startswith("__") and mn.endswith("__")) or mn in ("__init__", "__str__", "__repr__"):
                 continue
@@ -105,6 +141,12 @@ def immutability(repo, rule):
                         aliases[n.targets[0].id] = norm(v)
                     elif isinstance(v, ast.Name) and v.id in aliases:
                         aliases[n.targets[0].id] = aliases[v.id]
+                    elif _op_dunder(v) in may_alias and any(isinstance(x, ast.Name) and x.id in operands for x in ast.walk(v)):
+                        # ret = -other, where negation / scaling may hand back `other` itself (a shortcut `return self`):
+                        # ret can BE the operand
+                        aliases[n.targets[0].id] = "%s (operator %s may return its operand)" % (norm(v), _op_dunder(v))
+                    elif isinstance(v, ast.Attribute) and _roots(v) in aliases:
+                        aliases[n.targets[0].id] = aliases[_roots(v)]
             shared = operands | set(aliases)
             for n in ast.walk(fi.node):
                 tg = []
@@ -661,9 +703,48 @@ def inverse(repo, rule):
     if fb is None:
         rule.undecided("%s:1" % g.relpath, g.name, "invert", "pure-Python fallback not found in the try/except ImportError form")
         return
+    # the fallback may dispatch to helper implementations (`return _invert_pow(x, m)` on new interpreters, a Euclid loop on old
+    # ones): every implementation it can return the result of is judged by the same criteria
+    sibs = {}
+    for t in tries:
+        for h in t.handlers:
+            for x in h.body:
+                if isinstance(x, ast.FunctionDef):
+                    sibs[x.name] = x
+    for x in ast.walk(fb):
+        if isinstance(x, ast.FunctionDef) and x is not fb:
+            sibs[x.name] = x
+    for x in g.tree.body:
+        if isinstance(x, ast.FunctionDef):
+            sibs.setdefault(x.name, x)
+    fparams = [a.arg for a in fb.args.args][:2]
+    delegates = [r.value for r in ast.walk(fb) if isinstance(r, ast.Return) and isinstance(r.value, ast.Call) and isinstance(r.value.func, ast.Name)
+                 and r.value.func.id in sibs and r.value.func.id != "invert" and [norm(a) for a in r.value.args] == fparams]
+    own_rets = [r for r in ast.walk(fb) if isinstance(r, ast.Return) and r.value is not None and r.value not in delegates]
+    if delegates and not own_rets:
+        for d in delegates:
+            _judge_inverse(rule, g, sibs[d.func.id], "pysnark.gmpy:invert/%s" % d.func.id)
+        return
+    _judge_inverse(rule, g, fb, "pysnark.gmpy:invert")
+
+
+def _judge_inverse(rule, g, fb, fq):
     x_, m_ = [a.arg for a in fb.args.args][:2]
     pows = [n for n in ast.walk(fb) if isinstance(n, ast.Call) and norm(n.func) in ("pow", "powmod") and len(n.args) == 3]
-    good = [p for p in pows if norm(p.args[0]) == x_ and norm(p.args[1]) in ("%s - 2" % m_, "-1") and norm(p.args[2]) == m_]
+    good = [p for p in pows if norm(p.args[0]) == x_ and norm(p.args[1]) in ("%s - 2" % m_, "-1") and norm(p.args[2]) in (m_, "abs(%s)" % m_)]
+    builtin = [p for p in good if norm(p.args[1]) == "-1"]
+    if builtin:
+        # pow(x, -1, m): the interpreter's own extended Euclid; it raises (ValueError) when no inverse exists - no zero result to
+        # test - and a handler may only turn that into another exception, never into a value
+        hs = [h for t_ in ast.walk(fb) if isinstance(t_, ast.Try) and any(builtin[0] is x for b_ in t_.body for x in ast.walk(b_)) for h in t_.handlers]
+        swallow = [h for h in hs if not (h.body and isinstance(h.body[-1], ast.Raise))]
+        where = "%s:%s" % (g.relpath, fb.lineno)
+        if swallow:
+            rule.violation(where, fq, norm(builtin[0]), "the failure of pow(x, -1, m) for a non-invertible argument is swallowed: a value is "
+                           "returned where the other backends raise", "gmpy/invert-swallow")
+        else:
+            rule.ok(where, fq, norm(builtin[0]), "built-in modular inverse; a non-invertible argument raises")
+        return
     # the name(s) the power is bound to
     ynames = {norm(a.targets[0]) for a in ast.walk(fb) if isinstance(a, ast.Assign) and len(a.targets) == 1
               and any(x is p_ for p_ in good for x in ast.walk(a.value))}
@@ -678,7 +759,7 @@ def inverse(repo, rule):
             zero = guarded_
     where = "%s:%s" % (g.relpath, fb.lineno)
     if good and zero:
-        rule.ok(where, "pysnark.gmpy:invert", norm(good[0]), "Fermat inverse x^(m-2) mod m (m prime by R-C13-3), zero result raises")
+        rule.ok(where, fq, norm(good[0]), "Fermat inverse x^(m-2) mod m (m prime by R-C13-3), zero result raises")
         return
     loops = [n for n in ast.walk(fb) if isinstance(n, ast.While)]
     if loops:
@@ -687,14 +768,14 @@ def inverse(repo, rule):
         reduced = any(("%s %% %s" % (x_, m_)) in t for t in seeds) or any(
             isinstance(a, ast.AugAssign) and isinstance(a.op, ast.Mod) and norm(a.target) == x_ for a in ast.walk(fb))
         if reduced:
-            rule.undecided(where, "pysnark.gmpy:invert", "Euclid-style loop starting from %s %% %s" % (x_, m_),
+            rule.undecided(where, fq, "Euclid-style loop starting from %s %% %s" % (x_, m_),
                            "loop-based inverse: correctness of the loop itself is not decided statically")
         else:
-            rule.violation(where, "pysnark.gmpy:invert", "Euclid-style loop starting from the raw argument: %s" % "; ".join(seeds)[:120],
+            rule.violation(where, fq, "Euclid-style loop starting from the raw argument: %s" % "; ".join(seeds)[:120],
                            "the fallback inverse runs the Euclidean loop on the unreduced argument: for negative (or >= m) arguments "
                            "the result is not the inverse modulo m", "gmpy/invert-unreduced")
         return
-    rule.violation(where, "pysnark.gmpy:invert", norm(fb.body)[:200],
+    rule.violation(where, fq, norm(fb.body)[:200],
                    "fallback inverse is neither pow(x, m-2, m) with a zero-result check nor a recognised alternative", "gmpy/invert")
 
 
